@@ -252,12 +252,14 @@ inductive Op
   | start    (m : Manifest)      -- `run`: allocate network, `_unshare_network`
   | finish   (m : Manifest)      -- `finish`: `_cleanup_network` incl. `network_client.delete`
   | refinish (m : Manifest)      -- `_cleanup_network` interrupted before `network_client.delete`
+  | cutfinish (m : Manifest) (k : Nat)   -- `_cleanup_network` interrupted by a fault at its `(k+1)`-th removal
   deriving Repr
 
 def Op.man : Op → Manifest
   | .start m => m
   | .finish m => m
   | .refinish m => m
+  | .cutfinish m _ => m
 
 def sysStart (m : Manifest) (s : Sys) : Sys × Bool :=
   if m.shared then (s, true)
@@ -279,10 +281,20 @@ def sysCleanup (release : Bool) (m : Manifest) (s : Sys) : Sys :=
       { host := cleanupNetwork (some an) m s.host,
         live := if release then s.live.filter (fun c => c.owner ≠ m.owner) else s.live }
 
+/-- `_cleanup_network` stopped by an exception raised by its `(k+1)`-th removal call (`unlink_rule`,
+    `rm_ip_set`, `unlink_all`): the first `k` removals are done, the allocation is kept. -/
+def sysCleanupCut (k : Nat) (m : Manifest) (s : Sys) : Sys :=
+  if m.shared then s
+  else
+    match netGet m.owner s.live with
+    | none => s
+    | some an => { s with host := applyUnregs s.host ((finishOps an.1 an.2 m).take k) }
+
 def sysStep (s : Sys) : Op → Sys
   | .start m => (sysStart m s).1
   | .finish m => sysCleanup true m s
   | .refinish m => sysCleanup false m s
+  | .cutfinish m k => sysCleanupCut k m s
 
 def sysRun (s : Sys) (ops : List Op) : Sys := ops.foldl sysStep s
 
